@@ -767,7 +767,10 @@ def _pieces(e: ast.AST) -> List[Tuple[int, int]]:
                 cuts.add(k)
         if c > 1 and LIMIT // c <= 5000:
             for m in range(c, LIMIT + 2, c):
-                cuts.add(m)
+                # the quotient of (x + d) // c changes at m - d: cut around every multiple (small offsets d)
+                for k in (m - 2, m - 1, m, m + 1, m + 2):
+                    if 0 < k <= LIMIT + 1:
+                        cuts.add(k)
     cs = sorted(cuts)
     return [(a, b - 1) for a, b in zip(cs, cs[1:]) if b - 1 >= a]
 
